@@ -5,6 +5,7 @@ import (
 	"fmt"
 	"strings"
 	"sync"
+	"sync/atomic"
 	"time"
 
 	p9p "github.com/frobnitzem/go-p9p"
@@ -303,6 +304,7 @@ func runC05Wrap(w *mon.W, no, L, total int) {
 	w.Eval()
 	w.Count("wrap_runs", 1)
 	var mu sync.Mutex
+	var tearingDown int32
 	pinned := map[p9p.Tag]*p9p.Fcall{} // held requests
 	inflight := map[p9p.Tag]int{}
 	pinUIDs := map[int]bool{}
@@ -396,7 +398,9 @@ func runC05Wrap(w *mon.W, no, L, total int) {
 				kind := callKind((uid) % int(nCallKinds))
 				r := doCall(ctx, h.sess, kind, uid)
 				if r.err != nil || r.uid != uid {
-					w.Violate("mismatch", "C05:crossed-reply", fmt.Sprintf("wrap run: call uid=%d returned uid=%d err=%v", uid, r.uid, r.err), nil)
+					if atomic.LoadInt32(&tearingDown) == 0 {
+						w.Violate("mismatch", "C05:crossed-reply", fmt.Sprintf("wrap run: call uid=%d returned uid=%d err=%v", uid, r.uid, r.err), nil)
+					}
 					return
 				}
 			}
@@ -404,7 +408,10 @@ func runC05Wrap(w *mon.W, no, L, total int) {
 	}
 	done := make(chan struct{})
 	go func() { wg.Wait(); close(done) }()
-	q := mon.AwaitQuiesce(done)
+	q := mon.AwaitQuiesceLong(done, 25*time.Minute)
+	if !q.Done {
+		atomic.StoreInt32(&tearingDown, 1) // the deferred close must not be mistaken for a misdelivery
+	}
 	if q.Hung {
 		w.Violate("hang", "C05:hang:"+q.Sites, fmt.Sprintf("wrap run L=%d: callers have not returned although the process is quiescent; blocked at %s", L, q.Sites), map[string]interface{}{"goroutines": mon.TrimDump(q.Dump, 6000)})
 		return
